@@ -33,7 +33,13 @@ pub fn check_net(net: &Net, component: &str, st: &mut Stats) {
     let want = if net.n <= 64 {
         let w = scc_classes(net.n, &pairs);
         if crate::refmodel::graph::scc_classes_linear(net.n, &pairs) != w {
-            st.violation("harness", "references_agree", net.size(), || "the two reference implementations disagree".to_string(), || json!({"net": net}));
+            st.violation(
+                "harness",
+                "references_agree",
+                net.size(),
+                || "the two reference implementations disagree".to_string(),
+                || json!({"net": net}),
+            );
             return;
         }
         w
@@ -74,12 +80,24 @@ pub fn check_net(net: &Net, component: &str, st: &mut Stats) {
             if in_range && seen.iter().all(|c| *c == 1) {
                 st.pass("each_vertex_once");
             } else {
-                st.violation(component, "each_vertex_once", size, || format!("got {:?}", got), case);
+                st.violation(
+                    component,
+                    "each_vertex_once",
+                    size,
+                    || format!("got {:?}", got),
+                    case,
+                );
             }
             if got == want {
                 st.pass("partition_is_mutual_reachability");
             } else {
-                st.violation(component, "partition_is_mutual_reachability", size, || format!("got {:?} want {:?}", got, want), case);
+                st.violation(
+                    component,
+                    "partition_is_mutual_reachability",
+                    size,
+                    || format!("got {:?} want {:?}", got, want),
+                    case,
+                );
             }
             st.outcome(&format!("{}comps", got.len()));
         }
@@ -90,7 +108,13 @@ pub fn check_net(net: &Net, component: &str, st: &mut Stats) {
             if net.n == 0 {
                 st.pass("largest_of_empty_is_error");
             } else {
-                st.violation(component, "largest_returns_ok", size, || e.to_string(), case)
+                st.violation(
+                    component,
+                    "largest_returns_ok",
+                    size,
+                    || e.to_string(),
+                    case,
+                )
             }
         }
         Ok(Ok(c)) => {
@@ -100,7 +124,13 @@ pub fn check_net(net: &Net, component: &str, st: &mut Stats) {
             if v.len() == max && (want.contains(&v) || net.n == 0) {
                 st.pass("largest_is_maximal");
             } else {
-                st.violation(component, "largest_is_maximal", size, || format!("got {:?}, classes {:?}", v, want), case);
+                st.violation(
+                    component,
+                    "largest_is_maximal",
+                    size,
+                    || format!("got {:?}, classes {:?}", v, want),
+                    case,
+                );
             }
         }
     }
@@ -110,17 +140,45 @@ fn family_nets() -> Vec<(String, Net)> {
     let mut out = vec![];
     for n in [10usize, 30, 60] {
         // chain
-        out.push((format!("chain{}", n), Net { n, edges: (0..n - 1).map(|i| (i, i + 1, 1.0)).collect(), xy: None }));
+        out.push((
+            format!("chain{}", n),
+            Net {
+                n,
+                edges: (0..n - 1).map(|i| (i, i + 1, 1.0)).collect(),
+                xy: None,
+            },
+        ));
         // ring
-        out.push((format!("ring{}", n), Net { n, edges: (0..n).map(|i| (i, (i + 1) % n, 1.0)).collect(), xy: None }));
+        out.push((
+            format!("ring{}", n),
+            Net {
+                n,
+                edges: (0..n).map(|i| (i, (i + 1) % n, 1.0)).collect(),
+                xy: None,
+            },
+        ));
         // nested cycles: ring over first half, chain to second half ring, one back edge variant
         let h = n / 2;
         let mut e: Vec<(usize, usize, f64)> = (0..h).map(|i| (i, (i + 1) % h, 1.0)).collect();
         e.extend((h..n).map(|i| (i, if i + 1 < n { i + 1 } else { h }, 1.0)));
         e.push((0, h, 1.0));
-        out.push((format!("two_rings_bridge{}", n), Net { n, edges: e.clone(), xy: None }));
+        out.push((
+            format!("two_rings_bridge{}", n),
+            Net {
+                n,
+                edges: e.clone(),
+                xy: None,
+            },
+        ));
         e.push((n - 1, 1, 1.0));
-        out.push((format!("two_rings_merged{}", n), Net { n, edges: e, xy: None }));
+        out.push((
+            format!("two_rings_merged{}", n),
+            Net {
+                n,
+                edges: e,
+                xy: None,
+            },
+        ));
         // hub of degree 8 with return edges from every second spoke, plus isolated vertices
         let mut e = vec![];
         for k in 1..=8usize.min(n - 1) {
@@ -129,7 +187,14 @@ fn family_nets() -> Vec<(String, Net)> {
                 e.push((k, 0, 1.0));
             }
         }
-        out.push((format!("hub{}", n), Net { n, edges: e, xy: None }));
+        out.push((
+            format!("hub{}", n),
+            Net {
+                n,
+                edges: e,
+                xy: None,
+            },
+        ));
         // ladder of 2-cycles: i <-> i+1 for even i, i -> i+1 for odd i
         let mut e = vec![];
         for i in 0..n - 1 {
@@ -138,21 +203,63 @@ fn family_nets() -> Vec<(String, Net)> {
                 e.push((i + 1, i, 1.0));
             }
         }
-        out.push((format!("ladder{}", n), Net { n, edges: e, xy: None }));
+        out.push((
+            format!("ladder{}", n),
+            Net {
+                n,
+                edges: e,
+                xy: None,
+            },
+        ));
     }
     // long one-way structures (the analysis recurses along them): numbered along and against the edges
     for n in [1000usize, 1500, 2500] {
-        out.push((format!("chain{}", n), Net { n, edges: (0..n - 1).map(|i| (i, i + 1, 1.0)).collect(), xy: None }));
-        out.push((format!("chain_backwards{}", n), Net { n, edges: (0..n - 1).map(|i| (i + 1, i, 1.0)).collect(), xy: None }));
+        out.push((
+            format!("chain{}", n),
+            Net {
+                n,
+                edges: (0..n - 1).map(|i| (i, i + 1, 1.0)).collect(),
+                xy: None,
+            },
+        ));
+        out.push((
+            format!("chain_backwards{}", n),
+            Net {
+                n,
+                edges: (0..n - 1).map(|i| (i + 1, i, 1.0)).collect(),
+                xy: None,
+            },
+        ));
         let mut e: Vec<(usize, usize, f64)> = (0..n - 1).map(|i| (i, i + 1, 1.0)).collect();
         e.push((n - 1, n - 3, 1.0));
-        out.push((format!("chain_into_3cycle{}", n), Net { n, edges: e, xy: None }));
-        out.push((format!("ring{}", n), Net { n, edges: (0..n).map(|i| (i, (i + 1) % n, 1.0)).collect(), xy: None }));
+        out.push((
+            format!("chain_into_3cycle{}", n),
+            Net {
+                n,
+                edges: e,
+                xy: None,
+            },
+        ));
+        out.push((
+            format!("ring{}", n),
+            Net {
+                n,
+                edges: (0..n).map(|i| (i, (i + 1) % n, 1.0)).collect(),
+                xy: None,
+            },
+        ));
         let h = n / 2;
         let mut e: Vec<(usize, usize, f64)> = (0..h).map(|i| (i, (i + 1) % h, 1.0)).collect();
         e.extend((h..n).map(|i| (i, if i + 1 < n { i + 1 } else { h }, 1.0)));
         e.push((h - 1, h, 1.0));
-        out.push((format!("two_rings_bridge{}", n), Net { n, edges: e, xy: None }));
+        out.push((
+            format!("two_rings_bridge{}", n),
+            Net {
+                n,
+                edges: e,
+                xy: None,
+            },
+        ));
     }
     out
 }
@@ -207,7 +314,10 @@ pub fn run(tier: Tier) -> i32 {
     match fam.map(|h| h.join()) {
         Ok(Ok(st)) => total.merge(st),
         other => {
-            println!("MACHINERY-ERROR the family thread failed: {:?}", other.map(|r| r.is_ok()));
+            println!(
+                "MACHINERY-ERROR the family thread failed: {:?}",
+                other.map(|r| r.is_ok())
+            );
             return 2;
         }
     }
@@ -237,6 +347,14 @@ pub fn replay(case: &Value) -> i32 {
     for (k, g) in st.violations.iter() {
         println!("REPLAY-VIOLATION {} {}", k, g.detail);
     }
-    println!("replay: {} violations, passes {:?}", st.violations.len(), st.clause_pass);
-    if st.violations.is_empty() { 0 } else { 1 }
+    println!(
+        "replay: {} violations, passes {:?}",
+        st.violations.len(),
+        st.clause_pass
+    );
+    if st.violations.is_empty() {
+        0
+    } else {
+        1
+    }
 }
